@@ -150,6 +150,11 @@ func concealEndPosition(mesgs []proto.Message, lapIndices, sessionIndices []int,
 		}
 	}
 
+	if lastConcealStartIndex > lastConcealEndIndex {
+		// Overlap: the record found here was already concealed from the start, no record is left revealed.
+		lastConcealEndIndex = -1
+	}
+
 	updateEndPosition(mesgs, lapIndices, lapPlaceholder, lastConcealStartIndex, lastConcealEndIndex)         // Update Laps
 	updateEndPosition(mesgs, sessionIndices, sessionPlaceholder, lastConcealStartIndex, lastConcealEndIndex) // Update Sessions
 }
